@@ -49,7 +49,14 @@ pub fn wire(ty: u8, fmt: u8, shape: u8, raw: &[u8]) -> Vec<u8> {
                 if !n.is_empty() { let i = raw[0] as usize % n.len(); n[i] = "-1".into(); }
                 format!("[{}]", n.join(",")).into_bytes()
             }
-            _ => format!("[{}] ", nums.join(",")).into_bytes(), // trailing whitespace is fine in JSON
+            7 => format!("[{}] ", nums.join(",")).into_bytes(), // trailing whitespace is fine in JSON
+            // a well-formed prefix followed by ONE trailing element that is not a u8
+            8 | 9 | 10 | 11 => {
+                let mut n = nums.clone();
+                n.push(["256", "-1", "\"x\"", "null"][(shape - 8) as usize].to_string());
+                format!("[{}]", n.join(",")).into_bytes()
+            }
+            _ => format!("[{}]", nums.join(",")).into_bytes(),
         }
     }
 }
